@@ -75,7 +75,8 @@ class SimSocket:
 
     def getpeername(self):
         ofd = self._ofd()
-        if ofd.state != 'connected' or ofd.raddr is None:
+        if ofd.state != 'connected' or ofd.raddr is None or ofd.dead:
+            # Linux: after a reset the socket is in TCP_CLOSE and getpeername() fails (checked by conformance/)
             raise OSError(errno.ENOTCONN, 'Transport endpoint is not connected')
         return ofd.raddr
 
